@@ -359,7 +359,7 @@ fn exec_op(ctx: &Arc<Ctx>, who: &str, op: &Op) {
 /// and literal values over all nodes. Re-parsing rendered SQL adds projection maps (only column
 /// references) but must preserve this multiset.
 fn semantic_tokens(root: &Relation) -> BTreeMap<String, usize> {
-    fn expr_tokens(e: &qrlew::expr::Expr, out: &mut BTreeMap<String, usize>) {
+    fn expr_tokens(e: &qrlew::expr::Expr, out: &mut BTreeMap<String, usize>, top: bool) {
         use qrlew::expr::function::Function as F;
         use qrlew::expr::Expr;
         // `a / b` is built as case(b >= eps or b <= -eps, a / b, 0), and every re-parse of the
@@ -405,15 +405,57 @@ fn semantic_tokens(root: &Relation) -> BTreeMap<String, usize> {
                 None
             }
         }
-        let mut inner = e.clone();
-        while let Some(x) = is_guard(&inner) {
-            inner = x;
+        // a CASE without ELSE holds the unit value (printed NULL); its rendering `ELSE NULL`
+        // re-parses as the empty optional (printed none): the same SQL NULL
+        fn lit(v: &qrlew::data_type::value::Value) -> String {
+            let t = format!("{}", v);
+            if t == "NULL" || t == "none" { "null".to_string() } else { t }
         }
-        let e = if matches!(&inner, Expr::Function(f) if matches!(f.function(), F::Divide)) { &inner } else { e };
+        fn strip(e: &Expr) -> Expr {
+            let mut inner = e.clone();
+            while let Some(x) = is_guard(&inner) {
+                inner = x;
+            }
+            let e = if matches!(&inner, Expr::Function(f) if matches!(f.function(), F::Divide)) { inner } else { e.clone() };
+            // `x IS TRUE` is parsed as is_bool(cast(x as boolean), true) and rendered with the
+            // cast: every re-parse adds one more (idempotent) cast of the same kind
+            if let Expr::Function(f) = &e {
+                let name = format!("{:?}", f.function());
+                if name.starts_with("CastAs") {
+                    if let Some(Expr::Function(g)) = f.arguments().first() {
+                        if format!("{:?}", g.function()) == name {
+                            return strip(&f.arguments()[0]);
+                        }
+                    }
+                }
+            }
+            e
+        }
+        // the whole tree of one expression, columns anonymous (precedence and argument order)
+        fn shape(e: &Expr) -> String {
+            match &strip(e) {
+                Expr::Column(_) => "$".to_string(),
+                Expr::Value(v) => lit(v),
+                Expr::Function(f) => {
+                    let name = match f.function() {
+                        F::Random(_) => "Random".to_string(),
+                        other => format!("{:?}", other),
+                    };
+                    format!("{}({})", name, f.arguments().iter().map(shape).collect::<Vec<_>>().join(","))
+                }
+                Expr::Aggregate(a) => format!("{:?}[{}]", a.aggregate(), shape(a.argument())),
+                Expr::Struct(_) => "struct".to_string(),
+            }
+        }
+        if top && !matches!(e, Expr::Column(_)) {
+            *out.entry(format!("expr:{}", shape(e))).or_default() += 1;
+        }
+        let stripped = strip(e);
+        let e = &stripped;
         match e {
             Expr::Column(_) => {}
             Expr::Value(v) => {
-                *out.entry(format!("lit:{}", v)).or_default() += 1;
+                *out.entry(format!("lit:{}", lit(v))).or_default() += 1;
             }
             Expr::Function(f) => {
                 let name = match f.function() {
@@ -422,12 +464,12 @@ fn semantic_tokens(root: &Relation) -> BTreeMap<String, usize> {
                 };
                 *out.entry(format!("fn:{}", name)).or_default() += 1;
                 for a in f.arguments().iter() {
-                    expr_tokens(a, out);
+                    expr_tokens(a, out, false);
                 }
             }
             Expr::Aggregate(a) => {
                 *out.entry(format!("agg:{:?}", a.aggregate())).or_default() += 1;
-                expr_tokens(a.argument(), out);
+                expr_tokens(a.argument(), out, false);
             }
             Expr::Struct(_) => {}
         }
@@ -446,14 +488,14 @@ fn semantic_tokens(root: &Relation) -> BTreeMap<String, usize> {
             }
             Relation::Map(m) => {
                 for (_, e) in m.field_exprs() {
-                    expr_tokens(e, &mut out);
+                    expr_tokens(e, &mut out, true);
                 }
                 if let Some(f) = m.filter() {
-                    expr_tokens(f, &mut out);
+                    expr_tokens(f, &mut out, true);
                 }
                 for o in m.order_by() {
                     *out.entry(format!("order:{}", if o.asc { "asc" } else { "desc" })).or_default() += 1;
-                    expr_tokens(&o.expr, &mut out);
+                    expr_tokens(&o.expr, &mut out, true);
                 }
                 if let Some(l) = m.limit() {
                     *out.entry(format!("limit:{}", l)).or_default() += 1;
@@ -929,8 +971,29 @@ fn main() {
             o["minimise_candidates"] = json!(tried);
             std::fs::write(out, serde_json::to_string_pretty(&o).unwrap()).unwrap();
         }
+        Some("corpus") => {
+            // every corpus query once against the catalogue of (seed, run): which are accepted,
+            // and what the quiescent checks say about each (harness maintenance aid)
+            let seed: u64 = arg(&args, "--seed").unwrap_or("1").parse().unwrap();
+            let run: u64 = arg(&args, "--run").unwrap_or("0").parse().unwrap();
+            let mut wl = workload::generate(seed, run, 0);
+            wl.queries = workload::CORPUS.iter().map(|s| s.to_string()).collect();
+            wl.threads = vec![];
+            wl.sc_alt = None;
+            std::env::set_var("VERIF_HASH_SEED", wl.sc.compile.hash_seed.to_string());
+            simcommon::new_hash_epoch();
+            let h = std::thread::Builder::new().stack_size(512 << 20).spawn(move || {
+                let (_, refs, violations, probes) = reference_pass(&wl, false);
+                for (q, r) in wl.queries.iter().zip(refs.iter()) {
+                    println!("{} {} {}", if r.c.ok { "ok  " } else { "ERR " }, q, if r.c.ok { String::new() } else { r.c.err.lines().next().unwrap_or("").chars().take(100).collect() });
+                }
+                println!("violations: {}", serde_json::to_string(&violations).unwrap());
+                println!("probes: {:?}", probes);
+            }).unwrap();
+            h.join().unwrap();
+        }
         _ => {
-            eprintln!("usage: sim-a run|replay|minimise ...");
+            eprintln!("usage: sim-a run|replay|minimise|corpus ...");
             std::process::exit(2);
         }
     }
